@@ -148,4 +148,25 @@ theorem parse_export_cluster (F : NumFmt K) (hF : F.Lawful) (impl : Kind → K) 
       exact parse_export_obs F hF c.station (impl o.kind) o (hw o ho) (hdir o ho))
   simp only [h]
 
+theorem flipWith_flipWith (neg : K → K) (hneg : ∀ x, neg (neg x) = x) (bs : List Bool) (xs : List K) :
+    flipWith neg bs (flipWith neg bs xs) = xs := by
+  induction bs generalizing xs with
+  | nil => cases xs <;> rfl
+  | cons b bs ih =>
+    cases xs with
+    | nil => rfl
+    | cons x xs => cases b <;> simp [flipWith, ih, hneg]
+
+theorem mirrorCov_mirrorCov (neg : K → K) (hneg : ∀ x, neg (neg x) = x) (mir : Nat → Bool) (c : Cov K) :
+    mirrorCov neg mir (mirrorCov neg mir c) = c := by
+  simp [mirrorCov, flipWith_flipWith neg hneg]
+
+/-- exporting the internal (mirrored or not) matrix and reading it back with the same axes/angles gives it back -/
+theorem parse_export_covY (F : NumFmt K) (hF : F.Lawful) (neg : K → K) (hneg : ∀ x, neg (neg x) = x) (ysign : Bool)
+    (mir : Nat → Bool) (c : Cov K) :
+    parseCovY F neg ysign mir (exportCovY F neg ysign mir c) = some c := by
+  unfold parseCovY exportCovY
+  rw [parse_export_cov F hF]
+  cases ysign <;> simp [mirrorCov_mirrorCov neg hneg]
+
 end Gama.Export
